@@ -350,6 +350,12 @@ func GenWorldCfg(g *Rng, opt GenOpts) (World, map[string]any) {
 		mtimeMode = Pick(g, []string{"field", "env", "field", ""})
 	}
 	pkgMTime := x.ts()
+	if mtimeMode != "" && x.feat("mtime_boundary", 0.07) {
+		// legal values at the edges of what "a time was configured" can be
+		// confused with: the Unix epoch itself (SOURCE_DATE_EPOCH=0 is in real
+		// use), one second after it, the DOS epoch, the last 32-bit second
+		pkgMTime = Pick(g, []int64{0, 0, 1, 315532800, 2147483647})
+	}
 	switch mtimeMode {
 	case "field":
 		cfg["mtime"] = time.Unix(pkgMTime, 0).UTC().Format(time.RFC3339)
@@ -655,6 +661,26 @@ func GenWorldCfg(g *Rng, opt GenOpts) (World, map[string]any) {
 		case "rpm_compression":
 			w.ExpectFail = []string{"rpm"}
 			x.feats = append(x.feats, "rpm_compression_invalid")
+		}
+	}
+
+	// entries for single packagers listed after everything shared (where
+	// people put them): a list prepared for any other format is a proper
+	// prefix of the configured list, the shape for which "no copy needed"
+	// short cuts apply
+	ftP := 0.08
+	if opt.SharedBias {
+		ftP = 0.3
+	}
+	if len(contents) > 0 && x.feat("foreign_tail", ftP) {
+		p := Pick(g, allFormats)
+		for i := 0; i < 1+g.Intn(2); i++ {
+			path := fmt.Sprintf("src/tail/t%d.bin", i)
+			x.addFile(path, x.sizeSmall(), 0o644)
+			add(gContent{m: map[string]any{"src": "@SRC@" + path, "dst": fmt.Sprintf("/usr/lib/app/tail-%s-%d", p, i), "packager": p}, refPath: path, refKind: "content", single: true})
+			if g.Bool(0.3) {
+				p = Pick(g, allFormats)
+			}
 		}
 	}
 
